@@ -860,9 +860,12 @@ func CheckC05(rr *RunResult, res *vprop.Result) {
 		}
 		pr := rr.Plans[r.Plan]
 		invs := ix.Invs(r)
+		allRuns := invs
 		if r.IsCont() {
-			// continuous checks are reset per run by design; only "never again after..." within one run is not
-			// applicable (Retries 0). Compare the last run only, and only when the run ended quiescent.
+			// the engine resets the attempts of a continuous check at every run; only "never again after..." within one
+			// run is not applicable (Retries 0). Compare the last run only, and only when the run ended quiescent — or
+			// the whole history when the engine kept it (see below): both record "every invocation as exactly one
+			// attempt, in order".
 			if len(invs) == 0 || pr.Final == nil || !rr.Quiescent {
 				return
 			}
@@ -899,6 +902,9 @@ func CheckC05(rr *RunResult, res *vprop.Result) {
 		}
 		// "every invocation is recorded as exactly one attempt, in order, carrying the plugin's response or error and
 		// start<=end times"
+		if r.IsCont() && len(allRuns) > 1 && len(act.Attempts) == len(allRuns) {
+			invs = allRuns // an engine that keeps the attempts of earlier runs of a continuous check
+		}
 		if len(act.Attempts) != len(invs) {
 			res.Fail("C05/attempt-count", "%s: %d invocations but %d recorded attempts (status %v)", r.Tag(), len(invs), len(act.Attempts), status(act.State))
 			return
@@ -983,7 +989,7 @@ func CheckC05(rr *RunResult, res *vprop.Result) {
 					}
 					got, want = got.Wrapped, want.Wrapped
 				}
-				if at.Resp != nil && !isNilResp(at.Resp) {
+				if at.Resp != nil && !isNilResp(at.Resp) && !isZeroResp(at.Resp) {
 					res.Fail("C05/attempt-content", "%s attempt %d: failed invocation recorded with a response %#v", r.Tag(), k, at.Resp)
 					return
 				}
@@ -1271,46 +1277,52 @@ func CheckC07(rr *RunResult, res *vprop.Result) (lateContFail bool, heldRerun bo
 		}
 		// "While a plan or block executes, each of its continuous checks keeps being re-run": liveness; the one bounded
 		// form that is sound under back-pressure (results are handed over through a channel that is polled only at
-		// sequence launches, so the loop may legitimately block on its hand-over as soon as one result is waiting — or,
-		// with an unbuffered channel, as soon as its first run is done): when the harness itself held a sequence action
-		// of the scope for LongHold (250 ms, >= 100x the check's delay), the check must have run at least twice in total
-		// — its initial (gating) run and one run of the loop — i.e. it was re-run at least once while the scope
-		// executed. (An earlier version demanded three runs, which silently assumed a result buffer of one: DESIGN §8.)
-		for _, inv := range ix.All {
-			if inv.Ref.Plan != pi || !inv.Ref.IsSeq() || inv.Exit < 0 {
+		// sequence launches, so the loop may legitimately block on its hand-over) and assumes neither a rate nor a buffer
+		// size: the harness holds a sequence action of the scope until every continuous check above it (delay <= 2 ms)
+		// has been entered a second time — it was re-run at least once while the scope executed — and gives up only
+		// after LongHoldMax (3 s of harness-observed time, >= 1500x the delay). A hold that expired that way without a
+		// second run is the violation; like the stall rule it is a "nothing happened although the harness waited"
+		// verdict, not a measurement. (Earlier versions demanded three runs within 250 ms: DESIGN §8 item 11.)
+		for _, ev := range rr.Events {
+			if ev.Kind != EvRelease || ev.Err != LongHoldExpired {
 				continue
 			}
-			if sc.Spec(inv.Ref).StepOf(inv.N).Gate < LongHoldGate || time.Duration(inv.ExitAt-inv.EnterAt) < LongHold*8/10 {
+			ref, ok := ParseTag(ev.Tag)
+			if !ok || ref.Plan != pi {
 				continue
 			}
-			for _, scope := range []int{-1, inv.Ref.Block} {
+			for _, scope := range []int{-1, ref.Block} {
 				refs := sc.GroupRefs(pi, scope, 2)
-				if len(refs) == 0 {
-					continue
-				}
-				var cs *ChecksSpec
-				if scope < 0 {
-					cs = ps.Cont
-				} else {
+				cs := ps.Cont
+				if scope >= 0 {
 					cs = ps.Blocks[scope].Cont
 				}
-				if cs.Delay == 3 { // 1 h
+				if cs == nil || len(refs) == 0 || cs.Delay == 3 {
 					continue
 				}
-				heldRerun = true
-				runs := ix.Invs(refs[0])
+				runs := 0
+				for _, inv := range ix.Invs(refs[0]) {
+					if inv.EnterAt <= int64(ev.At) {
+						runs++
+					}
+				}
 				if failed, _ := anyRunFailed(ix, refs); failed {
 					continue // the loop legitimately stops at the first failed run
 				}
-				if len(runs) < 2 {
+				if runs < 2 {
 					name := fmt.Sprintf("plan p%d", pi)
 					if scope >= 0 {
 						name = fmt.Sprintf("plan p%d block b%d", pi, scope)
 					}
-					res.Fail("C07/cont-not-rerun", "%s: sequence action %s was held for %v while the scope executed, but continuous check %s ran only %d time(s)\n%s",
-						name, inv.Tag, time.Duration(inv.ExitAt-inv.EnterAt), refs[0].Tag(), len(runs), FormatEvents(rr.Events, 40))
+					res.Fail("C07/cont-not-rerun", "%s: sequence action %s was held for %v (harness-observed) while the scope executed, but continuous check %s had run only %d time(s)\n%s",
+						name, ev.Tag, LongHoldMax, refs[0].Tag(), runs, FormatEvents(rr.Events, 40))
 					return
 				}
+			}
+		}
+		for _, inv := range ix.All {
+			if inv.Ref.Plan == pi && inv.Ref.IsSeq() && inv.Exit >= 0 && sc.Spec(inv.Ref).StepOf(inv.N).Gate >= LongHoldGate {
+				heldRerun = true
 			}
 		}
 		// "Deferred checks run exactly once for every plan or block that was entered rather than bypassed, whether it
